@@ -12,6 +12,8 @@ pub fn pool(tier: Tier) -> Vec<Value> {
         json!(null), json!(true), json!(false), json!(0), json!(1), json!(1.0), json!(-1), json!(2),
         json!(1e2), json!(100), json!(""), json!("a"), json!("1"), big53, big63, umax, json!(-0.0), json!(1.5),
         json!(i64::MIN), json!(-1.5), json!("b"), json!("é"),
+        // not well separated: only the ordering operators are asserted on these pairs
+        json!(0.3), json!(0.30000000000000004), json!(9007199254740993u64), json!(1.0000000000000002), json!(9223372036854775807i64),
     ];
     let t = vec![json!(null), json!(true), json!(0), json!(1), json!(1.0), json!("a"), json!("1")];
     v.push(json!([]));
@@ -129,18 +131,37 @@ pub fn check_pair(x: &Value, y: &Value, st: &mut Stats) {
     };
     let eq = deep_eq(x, y);
     let (r_eq, r_ne, r_lt, r_le, r_gt, r_ge) = (&res[0], &res[1], &res[2], &res[3], &res[4], &res[5]);
-    if *r_eq != json!(eq) {
+    let close_numbers = is_num(x) && is_num(y) && crate::reval::key_cmp(x, y) != std::cmp::Ordering::Equal && {
+        let (fx, fy) = (x.as_f64().unwrap(), y.as_f64().unwrap());
+        (fx - fy).abs() / fx.abs().max(fy.abs()) <= 1e-9
+    };
+    if !close_numbers && *r_eq != json!(eq) {
         bad("C10/equality", "==", json!(eq).to_string(), r_eq.to_string(), st);
     }
-    if *r_ne != json!(!eq) {
-        bad("C10/inequality-not-negation", "!=", json!(!eq).to_string(), r_ne.to_string(), st);
+    // '!=' is the negation of '==' for every pair
+    if r_eq.is_boolean() && *r_ne != json!(!r_eq.as_bool().unwrap()) {
+        bad("C10/inequality-not-negation", "!=", format!("not {}", r_eq), r_ne.to_string(), st);
     }
     if is_num(x) && is_num(y) {
         st.nontrivial += 1;
         st.outcome("number pair");
-        let (fx, fy) = (x.as_f64().unwrap(), y.as_f64().unwrap());
-        let lt = !eq && fx < fy;
-        let gt = !eq && fx > fy;
+        let ord = crate::reval::key_cmp(x, y);
+        let lt = ord == std::cmp::Ordering::Less;
+        let gt = ord == std::cmp::Ordering::Greater;
+        // distinct numbers that the tolerant '==' may call equal: the equality laws are not asserted
+        let separated = ord == std::cmp::Ordering::Equal || {
+            let (fx, fy) = (x.as_f64().unwrap(), y.as_f64().unwrap());
+            (fx - fy).abs() / fx.abs().max(fy.abs()) > 1e-9
+        };
+        if !separated {
+            st.outcome("number pair (not well separated: ordering only)");
+            for (name, got, want) in [("<", r_lt, lt), ("<=", r_le, !gt), (">", r_gt, gt), (">=", r_ge, !lt)] {
+                if *got != json!(want) {
+                    bad("C10/ordering-on-close-numbers", name, json!(want).to_string(), got.to_string(), st);
+                }
+            }
+            return;
+        }
         for (name, got, want) in [("<", r_lt, lt), ("<=", r_le, lt || eq), (">", r_gt, gt), (">=", r_ge, gt || eq)] {
             if *got != json!(want) {
                 bad("C10/ordering-on-numbers", name, json!(want).to_string(), got.to_string(), st);
@@ -166,6 +187,29 @@ pub fn check_pair(x: &Value, y: &Value, st: &mut Stats) {
         if let (Ok(a), Ok(b)) = (a, b) {
             if a != b {
                 bad("C10/symmetry", op, format!("x {} y == y {} x", op, conv), format!("{} vs {}", a, b), st);
+            }
+        }
+    }
+    // operands constructed by the expression from (possibly the very same) document nodes
+    if !close_numbers {
+        let doc = json!({"l": x, "r": y});
+        for (e, want) in [
+            ("{a: l} == {a: r}", eq),
+            ("{a: l} == {b: r}", false),
+            ("{a: l} == {b: l}", false),
+            ("{a: l, b: r} == {a: l, c: r}", false),
+            ("[l] == [r]", eq),
+            ("[l, l] == [l, r]", eq),
+            ("[l, r] == [r, l]", eq),
+            ("{a: l} != {b: l}", true),
+            ("[l] == l", x.is_array() && x.as_array().unwrap().len() == 1 && deep_eq(&x[0], x)),
+        ] {
+            st.evaluations += 1;
+            st.validated += 1;
+            st.transitions += 1;
+            let o = impl_search(e, &doc);
+            if !matches!(&o, Out::Value(Value::Bool(b), false) if *b == want) {
+                bad("C10/constructed-operands", e, want.to_string(), o.brief(), st);
             }
         }
     }
